@@ -135,6 +135,24 @@ for k, t in LATER.items():
     lv, eng, tech, text, note = checks[k]
     checks[k] = (lv, eng, tech, text + t, note)
 
+R7TXT = {
+ "C01": " Seventh round: the same frame in its other Go forms (empty non-nil FOpts / FRMPayload lists, payloads held as several items) encodes to the specification bytes; unused-slot channel CFLists.",
+ "C02": " Seventh round: every value form that serialises to the same bytes (FRMPayload / FOpts in several items, empty items, empty non-nil lists) has the same specification MIC.",
+ "C03": " Seventh round: a history of 4096 (thorough 131072) steps each under a key not used before in the process, compared with the specification key stream.",
+ "C04": " Seventh round: channel CFLists with all / all but one slot unused; a received join-accept changed in place after decryption validates / is signed as the changed payload.",
+ "C06": " Seventh round: all 256 MHDR bytes as the first byte of a complete frame (binary and text): accepted and decoded as with the RFU bits clear.",
+ "C07": " Seventh round: struct fields the library has beyond the specification table (OptNeg in RXParamSetupReq) are lossless-or-error over their Go domain.",
+ "C08": " Seventh round: a frame of the history alphabet that the encoder refuses is a judged case instead of stopping the check.",
+ "C09": " Seventh round: the many-keys history (every step a key not used before; no panic, specification results).",
+ "C10": " Seventh round: schedule scenario with a size-0 registration next to a real registration and a decoder.",
+ "C11": " Seventh round: previous addresses of every type prefix x four fillings (40 values).",
+ "C16": " Seventh round: the all-zero key in both root-key alphabets.",
+ "C17": " Seventh round: Unwrap succeeds iff the integrity check passes also for envelopes without label, without KEK and for clear keys.",
+}
+for k, t in R7TXT.items():
+    lv, eng, tech, text, note = checks[k]
+    checks[k] = (lv, eng, tech, text + t, note)
+
 def load_extra():
     p = os.path.join(V, "bin", "manifest_table.json")
     if os.path.exists(p):
